@@ -34,6 +34,11 @@ import (
 //               rejected message is re-run on a branch with loosened bounds to show that the rejection
 //               was justified.
 
+// Environment switches (generator only, Apply never reads them):
+//   VERIF_C02_AVOID_F1=1  never generate a routed (token-to-token) swap whose recipient differs from the
+//                         sender, so that histories continue past finding F1 (C02/routed-intermediate-leak)
+//   VERIF_C01_TOTALS=1    print op-level totals and rejection reasons when the binary exits (tuning aid)
+
 const std = "stake"
 
 var poolDenoms = []string{"btc", "eth", "usdt"}
